@@ -212,6 +212,7 @@ class World(object):
         self.yield_hook = None
         self.recv_hook = None
         self.frame_faults = {}        # {opcode: kind}: one-shot fault on the first write of a frame with that opcode
+        self.closed_wait = 'raise'    # 'raise' | 'nval' | 'silent': see SimSelector.wait_readable
         self.thread_name = None
 
     # clock object interface (lomond.session.time / lomond.events.time)
@@ -619,7 +620,19 @@ class SimSelector(lomond.selectors.SelectorBase):
             raise _mkerr(f)
         conn = sock.conn
         if conn is None or sock.closed:
-            w.rec('wait_closed', sock.sid, None)
+            # the socket was closed under the selector.  What a real selector does then depends on the platform:
+            # select() raises; poll() reports POLLNVAL at once (the loop then reads); epoll/kqueue have dropped the
+            # descriptor silently, and so has poll() when the descriptor NUMBER has been given to another socket of
+            # the process in the meantime - nothing is ever reported again, only the timeout elapses
+            mode = getattr(w, 'closed_wait', 'raise')
+            w.rec('wait_closed', sock.sid, mode)
+            if mode == 'nval':
+                return True
+            if mode == 'silent':
+                if timeout is None or w.now >= max(w.horizon, w.stop_at or 0.0):
+                    raise Quiesced('closed socket, silent selector at t=%r' % w.now)
+                w.now = w.now + max(0.0, timeout)
+                return False
             raise OSError(errno.EBADF, 'Bad file descriptor')
         conn.sync(w.now)
         if conn.readable(w.now, poll=True):
